@@ -31,11 +31,11 @@ RAND_CONTRACT = ("void jpv_rand_contract(void *buf, size_t n)\n"
 
 def rand_contract(n):
     """the caller's random source, with ghost bookkeeping of its LAST call (where, how many bytes, what the buffer held afterwards)"""
-    return ("uv%d jpv_snap; size_t jpv_last_n; const void *jpv_last_buf;\n" % n +
+    return ("uv%d jpv_snap; size_t jpv_last_n; size_t jpv_last_buf;   /* offset of the buffer in its object (a pointer-valued ghost equated to an interior pointer makes the path infeasible in CBMC 6.11) */\n" % n +
             "void jpv_rand_contract(void *buf, size_t n)\n"
             "__CPROVER_requires(__CPROVER_w_ok(buf, n))\n"
             "__CPROVER_assigns(__CPROVER_object_upto(buf, n), jpv_snap, jpv_last_n, jpv_last_buf)\n"
-            "__CPROVER_ensures(jpv_last_n == n && jpv_last_buf == buf)\n"
+            "__CPROVER_ensures(jpv_last_n == n && jpv_last_buf == (size_t)__CPROVER_POINTER_OFFSET(buf))\n"
             "__CPROVER_ensures((n == %d) ==> (jpv_snap == VAL%d((const BigInt_%d *)buf)))\n;\n" % (n // 8, n, n) +
             "jpv_rand_fn jpv_rand_keep = jpv_rand_contract;   /* address taken: a candidate for function-pointer removal */\n")
 
@@ -45,7 +45,7 @@ def c_random(n):
     return (req(fresh("self"), "__CPROVER_obeys_contract(get_random_bytes, jpv_rand_contract)") + assigns("__CPROVER_object_whole(self)", "jpv_snap", "jpv_last_n", "jpv_last_buf") +
             ens("VAL%d(&self->val) < SPEC_MOD%d" % (n, n),
                 # uniformity on [0, p): the returned value is the LAST draw, all of it drawn in one call into the element itself, with only the bits above the modulus' length cleared
-                "jpv_last_n == %d && jpv_last_buf == (const void *)self" % (n // 8),
+                "jpv_last_n == %d && jpv_last_buf == (size_t)__CPROVER_POINTER_OFFSET(self)" % (n // 8),
                 "VAL%d(&self->val) == (jpv_snap & ((((uv%d)1) << %d) - 1))" % (n, n, bits)))
 
 
@@ -78,7 +78,7 @@ def units():
         us.append(BVUnit(q, dict({q: c_hash_reduce(n)}, **cs), P, replace=list(cs), unwind=n // 64 + 2, canary=("< SPEC_MOD%d" % n, "< SPEC_MOD%d - 1" % n)))
         q = F + "::random"
         u = BVUnit(q, dict({q: c_random(n)}, **{B + "::compare": BI.c_compare(n)}), P, replace=[B + "::compare"], unwind=8, canary=("< SPEC_MOD%d" % n, "< SPEC_MOD%d - 1" % n),
-                   loop_contracts={q: {1: "__CPROVER_assigns(__CPROVER_object_whole(self), jpv_snap, jpv_last_n, jpv_last_buf)\n__CPROVER_loop_invariant(1 == 1)\n"}}, spec_prelude=rand_contract(n),
+                   loop_contracts={q: {1: "__CPROVER_assigns(@LOCALS@, __CPROVER_object_whole(self), jpv_snap, jpv_last_n, jpv_last_buf)\n__CPROVER_loop_invariant(1 == 1)\n"}}, spec_prelude=rand_contract(n),
                    extra=["--object-bits", "10"], note="rejection loop by loop contract (invariant true, exit condition gives the range); the random source is a function-pointer contract; termination not claimed")
         u.extra_replace = ["jpv_rand_contract"]
         us.append(u)
